@@ -873,6 +873,39 @@ def m_cow_into_owned(ex, st, callee, args):
     raise Inconclusive("Cow::into_owned on %r" % (c,))
 
 
+def ordering_name(v):
+    """'Less' | 'Equal' | 'Greater' of a std::cmp::Ordering value in any of the forms the executor produces"""
+    if isinstance(v, Adt):
+        return v.variant or v.ty
+    if isinstance(v, Opaque) and v.tag == "const":
+        return str(v.data).strip().split("::")[-1]
+    if isinstance(v, Sc):
+        c = z3.simplify(v.e)
+        if z3.is_bv_value(c):
+            return {0: "Equal", 1: "Greater"}.get(c.as_long(), "Less")
+    raise Inconclusive("Ordering value %r" % (v,))
+
+
+def m_default_partial_ord(ex, st, callee, args):
+    """`<T as PartialOrd>::{lt,le,gt,ge}` of a crate type that does not override them: core's default, derived from the crate's
+    own partial_cmp (`matches!(self.partial_cmp(other), Some(Less | Equal))` ...)"""
+    from sym import Invoke
+    own = ex.resolver(callee, 2)
+    if own is not None:
+        return [(None, Invoke(own, list(args), lambda st2, val: val))]
+    op = callee.rsplit("::", 1)[1]
+    pc_fn = ex.resolver(callee.rsplit("::", 1)[0] + "::partial_cmp", 2)
+    if pc_fn is None:
+        raise Inconclusive("unknown callee: " + callee)
+    want = {"lt": ("Less",), "le": ("Less", "Equal"), "gt": ("Greater",), "ge": ("Greater", "Equal")}[op]
+
+    def conv(st2, val):
+        if not (isinstance(val, Adt) and val.ty == "Option"):
+            raise Inconclusive("partial_cmp returned %r" % (val,))
+        return boolv(val.variant == "Some" and ordering_name(val.fields[0]) in want)
+    return [(None, Invoke(pc_fn, list(args), conv))]
+
+
 def base_models():
     m = Models()
     m.add(r"^<(std::borrow::)?Cow<.*> as (AsRef<.*>|Deref|Borrow<.*>)>::(as_ref|deref|borrow)$", m_cow_as_ref)
@@ -950,4 +983,5 @@ def base_models():
     m.add(r"^log::__private_api::loc$", m_opaque_fmt)
     m.add(r"^max_level$|^log::max_level$", m_opaque_fmt)
     m.add(r"^<Level as PartialOrd<LevelFilter>>::le$", m_log_enabled)
+    m.add(r"^<(variables|stack|function)::.* as PartialOrd(<.*>)?>::(lt|le|gt|ge)$", m_default_partial_ord)
     return m
